@@ -197,6 +197,9 @@ func (x *schedX) thMint(name string, qi int, variant string) {
 	default:
 		outs = w.U.Outputs(w.M.ActiveID(), world.Split(q.Q.Amount)...)
 	}
+	if x.sharedOuts != nil {
+		outs = x.sharedOuts
+	}
 	req := nut04.PostMintBolt11Request{Quote: q.Q.Id, Outputs: world.Msgs(outs)}
 	if q.Key != nil {
 		sg, _ := nut20.SignMintQuote(q.Key, q.Q.Id, req.Outputs)
@@ -702,6 +705,48 @@ func init() {
 		}
 		if okN > 1 {
 			x.viol("C06,C15", x.scn+"/same-output-signed-twice", "both swaps asking for the same outputs were accepted: %s", strings.Join(x.obs, "; "))
+		}
+	}})
+
+	addScn(&schedScn{name: "R2-mint-swap-same-outputs", prop: "C06", setup: func(x *schedX) {
+		// a mint request and a swap ask for the SAME output: one is refused; a refused mint leaves its quote PAID, a refused
+		// swap its input UNSPENT
+		must(x.w, "fund|8,8", "mq|8", "settle|1", "pollq|1")
+		x.sharedOuts = x.w.U.Outputs(x.w.M.ActiveID(), 8)
+		x.thMint("A", 1, "")
+		x.thSwap("B", []int{0}, "")
+	}, oracle: func(x *schedX) {
+		w := x.w
+		okN := x.mintOK[1]
+		got, _ := w.M.M.GetMintQuoteState(w.Quotes[1].Q.Id)
+		x.note("final quote=%s mintOK=%d", got.State, x.mintOK[1])
+		if x.mintOK[1] == 0 && got.State.String() != "PAID" {
+			x.viol("C06", x.scn+"/refused-mint-changed-its-quote/"+got.State.String(), "the mint request was answered with an error but its paid quote ends %s: %s", got.State, strings.Join(x.obs, "; "))
+		}
+		for _, r := range x.swapRes {
+			st, err := w.M.M.ProofsStateCheck([]string{w.Proofs[r.ins[0]].Y})
+			final := "?"
+			if err == nil && len(st) == 1 {
+				final = st[0].State.String()
+			}
+			x.note("final %s input p%d ok=%v state=%s", r.name, r.ins[0], r.ok, final)
+			if r.ok {
+				okN++
+			} else if final != "UNSPENT" {
+				x.viol("C06", x.scn+"/refused-swap-changed-its-input/"+final, "the swap was answered with an error but its input ends %s: %s", final, strings.Join(x.obs, "; "))
+			}
+		}
+		if okN > 1 {
+			x.viol("C06,C15,C16", x.scn+"/same-output-signed-twice", "the mint request and the swap asking for the same output were both accepted: %s", strings.Join(x.obs, "; "))
+		}
+		// the mint's own totals still add up to what it handed out
+		iss, _ := w.M.M.IssuedEcash()
+		var ti uint64
+		for _, v := range iss {
+			ti += v
+		}
+		if want := uint64(16 + 8*okN); ti != want {
+			x.viol("C16", x.scn+"/issued-total-differs", "IssuedEcash sums to %d after handing out %d: %s", ti, want, strings.Join(x.obs, "; "))
 		}
 	}})
 
